@@ -418,8 +418,8 @@ pub(crate) fn traverse_unrolled3<R, F: FnMut(&'static Node) -> Option<R>>(mut f:
 pub(crate) fn setup_thread_node() -> &'static Node {
     // idempotent: a harness that runs several scenarios one after the other keeps its node (all
     // debts cleared, helping state idle, counters reset)
-    if let Some(l) = unsafe { HLOCAL.as_ref() } {
-        let node = l.node.get().unwrap();
+    let l = unsafe { &HLOCAL };
+    if let Some(node) = l.node.get() {
         rewrite_fields(node);
         fast_h::set_offset(&l.fast, 0);
         helping_h::set_generation(&l.helping, 0);
@@ -432,18 +432,16 @@ pub(crate) fn setup_thread_node() -> &'static Node {
     }
     let node = fresh_node();
     adopt_thread_node(node);
-    unsafe {
-        HLOCAL = Some(LocalNode {
-            node: Cell::new(Some(node)),
-            fast: FastLocal::default(),
-            helping: HelpingLocal::default(),
-        });
-    }
+    l.node.set(Some(node));
     node
 }
 
 /// The calling thread's `LocalNode` as a plain static of the harness (see `with_static`).
-pub(crate) static mut HLOCAL: Option<LocalNode> = None;
+pub(crate) static mut HLOCAL: LocalNode = LocalNode {
+    node: Cell::new(None),
+    fast: fast_h::const_local(),
+    helping: helping_h::const_local(),
+};
 
 /// Stub for `LocalNode::with` (used via kani::stub): the same two statements as the crate's no_std
 /// variant – "give the closure the thread's LocalNode, which has a node" – on a plain static
@@ -452,10 +450,8 @@ pub(crate) static mut HLOCAL: Option<LocalNode> = None;
 /// every proof; the real `with` is exercised by l1_local_node_helping_roundtrip,
 /// l1_strategy_load_* and c13_wrap_load_arc, and by every native replay.
 pub(crate) fn with_static<R, F: FnOnce(&LocalNode) -> R>(f: F) -> R {
-    let l = unsafe { HLOCAL.as_ref() };
-    vassert!(l.is_some(), "harness_must_call_setup_thread_node_first");
-    let l = l.unwrap();
-    vassert!(l.node.get().is_some(), "thread_keeps_a_node");
+    let l = unsafe { &HLOCAL };
+    vassert!(l.node.get().is_some(), "harness_must_call_setup_thread_node_first_and_thread_keeps_a_node");
     f(l)
 }
 
@@ -642,5 +638,6 @@ pub(crate) fn l1_local_node_helping_roundtrip() {
     });
     vcover!("l1_local_node_helping_roundtrip_end");
 }
+
 
 
